@@ -229,4 +229,5 @@ RECIPES = [
      "fixtime: numba variant, tie rule of the first new time only"),
     ("C19", "break", ["C19-R5"], D, "            if i > 0 and v - told[i - 1] <= told[i] - v:\n                index[j] = i - 1", "            if i > 0 and v - told[i - 1] <= told[i] - v:\n                index[j] = i + 1",
      "fixtime: numba variant steps forward instead of back"),
+    ("C19", "break", ["C19-R5"], "pyyeti/dsp.py", "        index = np.searchsorted(told, tnew, side=\"right\") - 1\n", "        index = np.searchsorted(told, tnew) - 1\n", "previous-sample search with the left insertion point (finding F18 re-introduced)"),
 ]
